@@ -1121,6 +1121,19 @@ def r10_vec_idioms(toks, stats):
             stats["R10.vfilter_map"] = stats.get("R10.vfilter_map", 0) + 1
             changed = True
             continue
+        i = find(".iter().flat_map(")
+        if i >= 0:
+            # Y.iter().flat_map(C) -> vflat_map(&Y, C)
+            start = chain_start(toks, m, i)
+            recv = [x.copy() for x in toks[start:i]]
+            k = i
+            while toks[k].s != "flat_map": k += 1
+            fopen = k + 1; fclose = m[fopen]
+            new = T("vflat_map(&") + recv + T(",") + toks[fopen + 1:fclose] + T(")")
+            toks[start:fclose + 1] = new
+            stats["R10.vflat_map"] = stats.get("R10.vflat_map", 0) + 1
+            changed = True
+            continue
         i = find(".iter().map(")
         if i >= 0:
             start = chain_start(toks, m, i)
